@@ -1,11 +1,12 @@
 """C08 — heartbeat detects a dead link, and only a dead link."""
 import json
+import random
 import warnings
 
 import fullstack
 import hbharness
 
-LEAN_MODULES = ["PyAirtouch.Props.C08", "PyAirtouch.Props.C08At4", "PyAirtouch.Props.C08At5"]
+LEAN_MODULES = ["PyAirtouch.Props.C08", "PyAirtouch.Props.C08At4", "PyAirtouch.Props.C08At5", "PyAirtouch.Props.C08Overflow"]
 LEVEL = "proof"
 
 
@@ -60,6 +61,178 @@ def _fixed(interval, timeout):
     return out
 
 
+# ------------------------------------------------------------------------------------------------ refused heartbeats
+# marks ("refuse", t) / ("refusedrop", t): see hbharness.py.  They stand at the front of the input list.
+def _refused_fixed(i, t):
+    """(kind, inputs[, the input that deliberately coincides with the refusal])"""
+    up = [("conn", 1, 0), ("start", 0)]
+    out = []
+    # at the first heartbeat: silent console / answered console / start later than 0
+    out.append(("first", [("refuse", 0)] + up + [("finish", 3 * t + 50)]))
+    out.append(("first", [("refuse", 0)] + up + [("resp", k * i + 3) for k in (1, 2, 3)] + [("finish", 4 * i + 9)]))
+    out.append(("first", [("refuse", 5), ("conn", 1, 0), ("start", 5), ("resp", 5 + i + 2), ("finish", 5 + 2 * i + t + 9)]))
+    # at a later one, every other heartbeat answered: one reset `timeout` after the last response, heartbeats go on
+    out.append(("later", [("refuse", 2 * i)] + up + [("resp", k * i + 3) for k in (0, 1, 3, 4, 5)] + [("finish", 6 * i + 9)]))
+    out.append(("later", [("refuse", i)] + up + [("resp", 3), ("finish", 3 * t + 50)]))
+    # ... and a stray response in time: no reset at all
+    out.append(("later-stray-response", [("refuse", i)] + up + [("resp", 3), ("resp", i + 5), ("resp", 2 * i + 3), ("finish", 3 * i + 9)]))
+    # the shape of the residual finding: the link is lost before a heartbeat instant and is back just before it, buffer full
+    out.append(("after-outage", [("refuse", i)] + up + [("resp", 3), ("conn", 0, i - 6), ("conn", 1, i - 1), ("resp", 2 * i + 3),
+                                                    ("resp", 3 * i + 3), ("finish", 4 * i + 9)]))
+    # several in a row
+    out.append(("row", [("refuse", 0), ("refuse", i), ("refuse", 2 * i)] + up + [("resp", 3 * i + 3), ("finish", 5 * i + t)]))
+    out.append(("row", [("refuse", k * i) for k in (1, 2, 3, 4)] + up + [("resp", 3), ("resp", 5 * i + 3), ("finish", 7 * i + 9)]))
+    out.append(("row", [("refuse", k * i) for k in range(8)] + up + [("finish", 8 * i + 9)]))                 # for ever
+    # a refusal, then stop / start again: a fresh manager; a mark that falls on no heartbeat of the new phase refuses nothing
+    out.append(("restart", [("refuse", i), ("refuse", 2 * i)] + up + [("resp", 3), ("stop", i + 9), ("start", i + 17), ("resp", i + 19),
+                                                                 ("finish", i + 17 + 2 * t + 9)]))
+    out.append(("restart", [("refuse", 0), ("refuse", 17 + i)] + up + [("stop", 9), ("start", 17), ("finish", 17 + 2 * t + 9)]))
+    # a mark while the link is down: nothing is sent, nothing is refused
+    out.append(("down", [("refuse", i)] + up + [("resp", 3), ("conn", 0, i - 6), ("conn", 1, i + 7), ("finish", 3 * i + 9)]))
+    # a refusal and a disconnection at the same instant, the refusal first (the stub reports the link down inside send())
+    out.append(("drop", [("refusedrop", i)] + up + [("resp", 3), ("conn", 1, i + 7), ("finish", 3 * i + t)]))
+    out.append(("drop", [("refusedrop", 0)] + up + [("conn", 1, 9), ("resp", i + 3), ("finish", 2 * i + t + 9)]))
+    out.append(("drop", [("refusedrop", i), ("refuse", 2 * i)] + up + [("resp", 3), ("finish", 2 * t + 9)]))   # stays down
+    # ... and as two events of the same instant whose order the event loop decides: either order is right
+    out.append(("coincide", [("refuse", i)] + up + [("resp", 3), ("conn", 0, i), ("conn", 1, i + 7), ("finish", 3 * i + 9)], ("conn", 0, i)))
+    out.append(("coincide", [("refuse", 0)] + up + [("conn", 0, 0), ("conn", 1, 7), ("finish", 2 * i + 9)], ("conn", 0, 0)))
+    return out
+
+
+def _refused_scenario(rng, i, t):
+    """a scenario of `_scenario` plus marks on instants at which a phase of the heartbeat loop has an iteration"""
+    ins = _scenario(rng, i, t)
+    starts = [e[1] for e in ins if e[0] == "start"]
+    end = ins[-1][-1]
+    grid = sorted({s + k * i for s in starts for k in range(0, 10) if s + k * i < end})
+    r = rng.random()
+    if r < 0.35:
+        marks = [rng.choice(grid)]
+    elif r < 0.7:
+        a = rng.randrange(len(grid))
+        marks = grid[a:a + rng.randint(2, 4)]                       # several in a row
+    else:
+        marks = rng.sample(grid, min(len(grid), rng.randint(2, 5)))
+    marks = sorted(set(marks))
+    out = [("refuse", m) for m in marks]
+    if rng.random() < 0.25:
+        m = rng.choice(marks)
+        out = [x for x in out if x[1] != m] + [("refusedrop", m)]
+        back = m + rng.choice([1, 7, i + 3, t + 5])
+        if back < end and rng.random() < 0.8:
+            body = ins[:-1] + [("conn", 1, back)]
+            body.sort(key=lambda e: e[-1])                          # stable: equal instants keep their order
+            ins = body + [ins[-1]]
+    return "random", out + ins
+
+
+def _is_mark(e):
+    return e[0] in ("refuse", "refusedrop")
+
+
+def _beats_missing_after_refusal(i, ins, real):
+    """Read from the property text, not from the model: while monitoring is started and the link is up a request is emitted every
+    `interval`.  After the last refusal of the record, at R, the iterations of that phase of the heartbeat loop fall on R + k*interval;
+    those at which (by the record itself) monitoring has been running without a stop / start since R, the link has been up since before
+    the instant and nothing else happens at the instant must show a `beat`.  Returns the instants that do not."""
+    evs = []
+    for e in real:
+        k, *a = e.split()
+        if k != "raised":
+            evs.append((k, [int(x) for x in a]))
+    refs = [a[0] for k, a in evs if k == "refused"]
+    if not refs:
+        return []
+    R = refs[-1]
+    end = [e for e in ins if not _is_mark(e)][-1][-1]
+    missing = []
+    T = R + i
+    while T < end:
+        if any(k in ("stop", "start") and R <= a[-1] <= T for k, a in evs):
+            break
+        up = None
+        for k, a in evs:
+            if k == "conn" and a[-1] < T:
+                up = bool(a[0])
+        busy = any(k in ("conn", "resp") and a[-1] == T for k, a in evs)
+        if up and not busy and ("beat %d" % T) not in real:
+            missing.append(T)
+        T += i
+    return missing
+
+
+def refused_level(ctx, thorough, cfgs, fmt):
+    """differential only: real HeartbeatManager with a refusing stub socket against the Lean model extended by `beatRefused`"""
+    rng = random.Random(ctx.seed * 7919 + 8)        # its own stream: the scenarios of the other levels stay what they were
+    n = 2500 if thorough else 300
+    cases = []
+    for (i, t) in cfgs:
+        for item in _refused_fixed(i, t):
+            cases.append((i, t, 1, item[0], item[1], item[2] if len(item) > 2 else None))
+    for _ in range(n):
+        i, t = rng.choice(cfgs)
+        kind, ins = _refused_scenario(rng, i, t)
+        cases.append((i, t, rng.choice([1, 9]), kind, ins, None))
+    reals = [_run(ctx, i, t, rt, ins) for (i, t, rt, kind, ins, co) in cases]
+    lines = []
+    where = []
+    for (i, t, rt, kind, ins, co) in cases:
+        where.append(len(lines))
+        lines.append("hbx %d %d %d %s" % (i, t, rt, fmt(ins)))
+        if co is not None:
+            # the other order of the two coinciding events: the refusal first, then the link goes down
+            alt = [("refusedrop", e[1]) if (e[0] == "refuse" and e[1] == co[-1]) else e for e in ins if e != co]
+            lines.append("hbx %d %d %d %s" % (i, t, rt, fmt(alt)))
+    answers = ctx.driver(lines) if ctx.driver_ok else None
+    worst = None
+    for idx, ((i, t, rt, kind, ins, co), real) in enumerate(zip(cases, reals)):
+        ctx.case(json.dumps(["refused", i, t, rt, ins]), nontrivial=True)
+        nref = sum(1 for e in real if e.startswith("refused "))
+        ctx.count("refused:kind:%s" % kind)
+        ctx.count("refused:refusals-in-run:%s" % (nref if nref < 4 else "4+"))
+        if nref:
+            last = max(int(e.split()[1]) for e in real if e.startswith("refused "))
+            ctx.count("refused:%s" % ("beats-after-the-last-refusal" if any(e.startswith("beat ") and int(e.split()[1]) > last for e in real)
+                                      else "no-beat-after-the-last-refusal"))
+            ctx.count("refused:resets-after-a-refusal", sum(1 for e in real if e.startswith("reset ") and int(e.split()[1]) > last))
+        if kind not in ("random", "down", "coincide") and nref == 0:
+            ctx.tie_broken("correspondence:heartbeat-refused:stub", "the stub socket refused no send() in the fixed scenario %s (interval %d, timeout %d): %s" % (
+                ins, i, t, real), scenario=[i, t, rt, ins])
+        timed = [e for e in ins if not _is_mark(e)]
+        missing = _beats_missing_after_refusal(i, ins, real)
+        if missing and (worst is None or len(ins) < len(worst[3])):
+            worst = (i, t, rt, ins, real, missing)
+        if answers is None:
+            continue
+        ms = []
+        for a in answers[where[idx]:where[idx] + (2 if co is not None else 1)]:
+            tr, _, ex = a.partition(" | ")
+            ms.append((tr.split(" ; ") if tr else [], [int(x) for x in ex.split()]))
+        if _equal_time_hazard([e for e in timed if e != co], ms[0][0], ms[0][1], rt, sync={e[1] for e in timed if e[0] == "start"}):
+            ctx.count("refused:skipped:input-coincides-with-deadline")
+            continue
+        if real not in [m for m, _ in ms]:
+            ctx.tie_broken("correspondence:heartbeat-refused", "model (Heartbeat.stepX, beatRefused) %s != implementation %s on %s" % (
+                " or ".join(str(m) for m, _ in ms), real, ins), scenario=[i, t, rt, ins])
+        elif co is not None:
+            ctx.count("refused:coincide:%s" % ("refusal-first" if real == ms[1][0] and real != ms[0][0] else "disconnection-first"))
+    if worst is not None:
+        i, t, rt, ins, real, missing = worst
+        ctx.violation("C08:refused-heartbeat-ends-requests", "after a heartbeat that the socket refused (send buffer full) no request is emitted at %s although monitoring "
+                      "is started and the link is up (interval %d, timeout %d ticks): %s" % (missing, i, t, real),
+                      kind="history", judgement="beats-after-refusal", scenario=[i, t, rt, ins], implementation_output=real)
+    ctx.coverage["rule"] += (
+        " Refused heartbeats (the stub socket's send() raises the package's QueueOverflowError at marked instants): at the first heartbeat, at a "
+        "later one, after an outage that ends just before a heartbeat instant, several in a row, for ever, before a stop / start, with the link "
+        "going down at the very instant of the refusal (after it: forced by the stub; as an independent event of that instant: either order "
+        "accepted), a mark while the link is down, and marks scattered over the random scenarios above; the recorded events (with `refused t`) "
+        "compared with the Lean model extended by the label beatRefused (Model/HeartbeatX.lean, driver command hbx). These runs are NOT judged "
+        "by the Spec monitor c08: it rejects every run in which a heartbeat is due while connected and none is sent, and for a full send buffer "
+        "that is the residual known finding C08:api:skipped-beat-full-buffer, judged at API level below. The only independent judgement here is "
+        "read from the property text: after the last refusal of a record the requests must go on every interval while monitoring is started "
+        "and the link is up.")
+
+
 def _run(ctx, interval, timeout, rt, ins):
     with warnings.catch_warnings():
         warnings.simplefilter("ignore")
@@ -67,12 +240,16 @@ def _run(ctx, interval, timeout, rt, ins):
     return real
 
 
-def _equal_time_hazard(ins, model_out, expiries, rt=0):
-    """responses/conn changes that land exactly on a model deadline or beat instant are order-dependent"""
+def _equal_time_hazard(ins, model_out, expiries, rt=0, sync=()):
+    """responses/conn changes that land exactly on a model deadline or beat instant are order-dependent
+    (`sync`: instants of `start` inputs - the first iteration of the heartbeat loop runs inside the handling of that input, so its
+    order relative to the other inputs of the instant is the order of the input list)"""
     times = set(expiries)
     for ev in model_out:
         k, *a = ev.split()
-        if k in ("reset", "beat", "resetDone"):
+        if k in ("beat", "refused") and int(a[-1]) in sync:
+            continue
+        if k in ("reset", "beat", "resetDone", "refused"):
             times.add(int(a[-1]))
         if k == "reset":
             times.add(int(a[-1]) + rt)        # the instant at which that reset completes
@@ -125,6 +302,7 @@ def run(ctx, deep=False):
         i, t, rt, ins, real = worst
         ctx.violation("C08:c08", "Spec.Heartbeat.c08 rejects the recorded heartbeat run (interval %d, timeout %d ticks): %s" % (i, t, real),
                       kind="history", scenario=[i, t, rt, ins], implementation_output=real, spec_verdict="c08 = false")
+    refused_level(ctx, thorough, cfgs, fmt)
     api_level(ctx, thorough)
     ctx.sample({"interval": cases[0][0], "timeout": cases[0][1], "inputs": cases[0][3], "recorded": reals[0]})
     ctx.assumptions += ["timers fire when due (virtual clock)", "socket.send()/reset_connection() of the stub return promptly / after a fixed delay"]
@@ -265,6 +443,12 @@ def replay(ctx, data):
         print(evs, "-> c08 =", v)
         return 0 if v == "1" else 1
     i, t, rt, ins = data["scenario"]
+    if data.get("judgement") == "beats-after-refusal":
+        ins = [tuple(x) for x in ins]
+        real = hbharness.run_scenario(i, t, ins, reset_ticks=rt)
+        missing = _beats_missing_after_refusal(i, ins, real)
+        print(real, "-> no request at", missing)
+        return 1 if missing else 0
     real = hbharness.run_scenario(i, t, [tuple(x) for x in ins], reset_ticks=rt)
     v = ctx.oracle(["hbmon %d %d %s" % (i, t, " ; ".join(real))])[0]
     print(real, "-> c08 =", v)
